@@ -261,7 +261,9 @@ def _wrappers(cx: Ctx, env, ty, depth, inner_fn):
             # a ** entry after the key may override it
             inner = gen(cx, env, ty, depth - 1)
             other = gen(cx, env, ty, 0)
-            return cx.pick([f"{{'f_a': {other}, **{{'f_a': {inner}}}}}['f_a']", f"{{**{{'f_a': {other}}}, 'f_a': {inner}}}['f_a']"])
+            return cx.pick([f"{{'f_a': {other}, **{{'f_a': {inner}}}}}['f_a']", f"{{**{{'f_a': {other}}}, 'f_a': {inner}}}['f_a']",
+                            # a computed key that happens to be the same key, after the constant one
+                            f"{{'f_a': {other}, ('f_a' if True else 'f_z'): {inner}}}['f_a']", f"{{'f_a': {inner}, ('f_a' if False else 'f_z'): {other}}}['f_a']"])
         if kind == "D":  # field of a record built on the spot with a dataclass / NamedTuple constructor (sugar in any position)
             keys = [f"f_{chr(97 + i)}" for i in range(n)]
             return f"{gen(cx, env, ('D', tuple(zip(keys, tys))), depth - 1)}.{keys[pos]}"
@@ -547,6 +549,19 @@ def any_seq(cx: Ctx, env, depth):
 
 
 def _called_lambda(cx: Ctx, env, ty, depth):
+    if cx.cfg.higher_order and ty[0] == "S" and cx.chance(3):
+        # the operator's lambda reaches it through a parameter of a called lambda
+        src, st_ = _source(cx, env)
+        f, w = cx.fresh(env), cx.fresh(env)
+        if f != w:
+            body = gen(cx, bind(env, w, st_), ty[1], depth - 1)
+            return f"(lambda {f}: Select({src}, {f}))(lambda {w}: {body})"
+    if cx.cfg.starred_literals and ty in (I, F) and cx.chance(1):
+        # the arguments of a called lambda handed over as one starred tuple / as a ** mapping
+        a, b = gen(cx, env, ty, depth - 1), gen(cx, env, ty, 0)
+        p, q = cx.fresh(env), cx.fresh(env)
+        if p != q:
+            return cx.pick([f"(lambda {p}, {q}: {p} - {q})(*({a}, {b}))", f"(lambda {p}, {q}: {p} - {q})(**{{'{p}': {a}, '{q}': {b}}})", f"(lambda {p}, {q}: {p} - {q})({a}, *({b},))"])
     if ty in (I, F) and cx.chance(1):
         # a parameterless called lambda (what an inlined zero-argument helper looks like), with a use of the variables in scope
         # to its right
